@@ -19,9 +19,8 @@ Fails(e, clause, ok) == IF ok THEN <<>> ELSE << <<e.id, clause>> >>
 \* the call cuts its input into chunks (e.chunks: one per named batch, or the whole input when batch_size is
 \* None); an entry is identified by the rows of the chunk and the part of the configuration results depend on
 KeysOfRun(e) == {<<e.chunks[j], e.keycfg>> : j \in 1..Len(e.chunks)}
-PredictedHits(e, d) == [j \in 1..Len(e.chunks) |->
-                          \/ <<e.chunks[j], e.keycfg>> \in d
-                          \/ \E k \in 1..(j - 1) : e.chunks[k] = e.chunks[j]]
+\* (the set of entries is read once when the call starts: a chunk repeated inside one call misses both times)
+PredictedHits(e, d) == [j \in 1..Len(e.chunks) |-> <<e.chunks[j], e.keycfg>> \in d]
 
 Judge(e, d) ==
        Fails(e, "RunDoesNotRaise", e.raised = "")
